@@ -9,5 +9,7 @@ git -C "$WT" diff --stat | tail -1
 T=$(cd "$WT" && PYTHONPATH="$WT" timeout 1200 /venv/bin/python -m pytest -q -p no:cacheprovider --timeout=900 -q 2>&1 | tail -1)
 echo "tests with change: $T"
 (cd "$WT" && PYTHONPATH="$WT" timeout 600 /venv/bin/python "$OUT/demo.py" >/dev/null 2>&1); echo "demo with change: exit $?"
-(cd "$WT" && git stash -q && PYTHONPATH="$WT" timeout 600 /venv/bin/python "$OUT/demo.py" >/dev/null 2>&1; echo "demo without change: exit $?"; git stash pop -q)
+# (git stash is shared by all worktrees of a repository: revert/re-apply the diff instead)
+(cd "$WT" && git diff > "$OUT/.current.diff" && git apply -R "$OUT/.current.diff" && PYTHONPATH="$WT" timeout 600 /venv/bin/python "$OUT/demo.py" >/dev/null 2>&1; echo "demo without change: exit $?"; git apply "$OUT/.current.diff")
+cmp -s "$OUT/.current.diff" "$OUT/patch.diff" || echo "NOTE: worktree diff differs from delivered patch.diff"
 cd /verif && bin/mutation-demo "$OUT/patch.diff" "$PID" "$TIER"; echo "mutation-demo rc=$?"
